@@ -19,7 +19,7 @@ class AnalysisError(Exception):
 
 
 class Obligation(object):
-    __slots__ = ('rule', 'key', 'site', 'status', 'detail', 'what')
+    __slots__ = ('rule', 'key', 'site', 'status', 'detail', 'what', 'deps')
 
     def __init__(self, rule, key, site, status, detail, what=''):
         self.rule = rule
@@ -28,6 +28,7 @@ class Obligation(object):
         self.status = status    # 'ok' | 'bad'
         self.detail = detail
         self.what = what
+        self.deps = ()          # further functions the verdict depends on (reference comparison)
 
     def as_dict(self):
         return {'rule': self.rule, 'key': self.key, 'site': self.site, 'status': self.status,
@@ -50,14 +51,16 @@ class Ledger(object):
     def ok(self, rule, key, site, detail=''):
         self.obligations.append(Obligation(rule, key, site, 'ok', detail))
 
-    def bad(self, rule, key, site, what, detail=''):
-        self.obligations.append(Obligation(rule, key, site, 'bad', detail, what))
+    def bad(self, rule, key, site, what, detail='', deps=()):
+        o = Obligation(rule, key, site, 'bad', detail, what)
+        o.deps = tuple(deps or ())
+        self.obligations.append(o)
 
-    def check(self, cond, rule, key, site, what, detail=''):
+    def check(self, cond, rule, key, site, what, detail='', deps=()):
         if cond:
             self.ok(rule, key, site, detail)
         else:
-            self.bad(rule, key, site, what, detail)
+            self.bad(rule, key, site, what, detail, deps)
         return cond
 
     def note(self, text):
